@@ -276,7 +276,7 @@ def tie(tier, seed, replay):
 
     # ---- compare
     feats, distinct, evaluations = {}, set(), 0
-    nwf = 0
+    nwf = nwf_nested = 0
     sensitive, insensitive = 0, []
     for c in cases:
         rels = c["prog"]["rels"]
@@ -290,13 +290,14 @@ def tie(tier, seed, replay):
         wf = c["wf"]
         all_wf = bool(wf[3])
         nwf += 1 if all_wf else 0
+        nwf_nested += 1 if (all_wf and not wf[4]) else 0
         failing = [i for i in (0, 1, 2) if not wf[i]]
         for f in c["feats"]:
             feats[f] = feats.get(f, 0) + 1
         for k, inp in enumerate(c["inputs"]):
             evaluations += 1
             cs = dict(id=c["id"], origin=c["origin"], program=c["text"], hand_expansion=c.get("hand_text"), prog=c["prog"], input={r: [list(t) for t in ts] for r, ts in inp.items()},
-                      hypotheses=dict(identifiers_ok=wf[0], locals_bound=wf[1], head_macros_closed=wf[2], all=wf[3]))
+                      hypotheses=dict(identifiers_ok=wf[0], locals_bound=wf[1], head_macros_closed=wf[2], all=wf[3], locals_bound_by_direct_items=wf[4]))
             im = impl_outcome((impl.get(c["id"] + "_m") or [None] * len(c["inputs"]))[k], rels)
             ih = impl_outcome((impl.get(c["id"] + "_h") or [None] * len(c["inputs"]))[k], rels) if c["hand"] is not None else ("rejected", "hand expansion does not terminate")
             mo, hy = c["model"][k], c["hyg"][k]
@@ -361,7 +362,7 @@ def tie(tier, seed, replay):
                      "x 2-3 input databases; every program is run (a) through the real macro, (b) as its python hand expansion through the real macro, (c) as the Coq model's expansion and (d) as the Coq reference expansion under Engine/Sem.v; "
                      "plus programs violating exactly one hypothesis of the theorem, recursive macro tables, and the corpus; non-trivial = the macro program derives at least one fact; distinct = distinct (program text, input)",
                 samples=samples,
-                distribution=dict(programs=len(cases), satisfying_theorem_hypotheses=nwf,
+                distribution=dict(programs=len(cases), satisfying_theorem_hypotheses=nwf, of_which_only_through_nested_binders=nwf_nested,
                                   designed_inputs_telling_a_leaking_local_apart=dict(sensitive=sensitive, insensitive=insensitive), negatives=len(negs), negative_kinds=neg_kinds, raw_corpus=len(raws), termination_witnesses=len(hangs), features=feats),
                 mismatches=mism,
                 trusted_base=["gen/c08_macros.py renderers (Rust text, Gallina term) and the python hand expander; gen/prog.py generated crates",
